@@ -188,6 +188,10 @@ func genC15(rng *hx.Rng, n int, tier string, emit func(hx.Input)) {
 		stores := 0
 		ops := make([]c15op, 0, nops)
 		lastDepth := map[uint64]int64{}
+		lastStore := map[uint64]c15op{}
+		probeNext := uint64(0)
+		haveProbe := false
+		restores := 0
 		for j := 0; j < nops; j++ {
 			if rng.Chance(0.12) {
 				gen = (gen + 1) & 255
@@ -200,11 +204,50 @@ func genC15(rng *hx.Rng, n int, tier string, emit func(hx.Input)) {
 			if !rng.Chance(0.35) {
 				o.m = 1 + int64(rng.U64()%0xffff)
 			}
+			// quiescence stores at depth 0: a fifth of the stores
+			if rng.Chance(0.2) {
+				o.d = 0
+			}
 			r := rng.Intn(100)
+			if haveProbe {
+				// the probe that follows a re-store
+				haveProbe = false
+				r = 62
+				h = probeNext
+				o.hash = h
+			}
 			switch {
 			case r < 62:
 				o.kind = 0
 				stores++
+				// re-store (seeded change C15-H skipped a "redundant" second store): the same key again with
+				// everything as in its previous store except ONE or TWO fields, then a probe of that key
+				if prev, ok := lastStore[h]; ok && rng.Chance(0.3) {
+					gnow := o.gen
+					o = prev
+					o.gen = gnow
+					for k := 1 + rng.Intn(2); k > 0; k-- {
+						switch rng.Intn(7) {
+						case 0, 1:
+							o.m = 1 + int64(rng.U64()%0xffff) // another non-null move
+						case 2:
+							o.m = 0 // null move: the old one has to survive
+						case 3:
+							o.v += []int64{-1, 1, -64, 64}[rng.Intn(4)]
+						case 4:
+							o.d = []int64{0, prev.d + 1, max(0, prev.d-1), max(0, prev.d-3)}[rng.Intn(4)]
+						case 5:
+							o.typ = int64(rng.Intn(3))
+						default:
+							o.ply = int64(rng.Intn(64))
+						}
+					}
+					restores++
+					if rng.Chance(0.7) {
+						probeNext, haveProbe = h, true
+					}
+				}
+				lastStore[h] = o
 				// provoke the keep-deeper rule: shallow bound after a deep entry of the same key
 				if ld, ok := lastDepth[h]; ok && rng.Chance(0.3) && ld >= 3 {
 					o.d = rng.Range(max(0, ld-5), ld-1)
@@ -234,6 +277,7 @@ func genC15(rng *hx.Rng, n int, tier string, emit func(hx.Input)) {
 			case r < 93:
 				o.kind = 2
 				lastDepth = map[uint64]int64{}
+				lastStore = map[uint64]c15op{}
 			case r < 97:
 				o.kind = 3
 				nnb := uint64(c15Sizes[rng.Intn(len(c15Sizes))])
@@ -244,6 +288,7 @@ func genC15(rng *hx.Rng, n int, tier string, emit func(hx.Input)) {
 				curNb = nnb
 				resized = true
 				lastDepth = map[uint64]int64{}
+				lastStore = map[uint64]c15op{}
 				if malformed && rng.Chance(0.3) {
 					o.hash = []uint64{0, 31, 33, 48, ^uint64(0) - 31}[rng.Intn(5)]
 				}
@@ -293,6 +338,9 @@ func genC15(rng *hx.Rng, n int, tier string, emit func(hx.Input)) {
 		}
 		if keepDeeper {
 			tags = append(tags, "keep-deeper-candidate")
+		}
+		if restores > 0 {
+			tags = append(tags, "re-store-one-field")
 		}
 		if malformed {
 			tags = append(tags, "malformed")
